@@ -66,4 +66,9 @@ example : (roRun src1 [.openFile "/f".toList O_SYNC 0, .hWrite 0 [9], .hTrunc 0 
     bits the model uses -/
 theorem masks_are_source : roWriteMask = Generated.roWriteMask ∧ (O_WRONLY ||| O_RDWR) = Generated.memAccessMask := by decide
 
+/-- the methods of readonlyfs.go whose whole body is `return syscall.EPERM` (extracted from the current
+    source) are exactly the nine mutators for which `ro_mutators_eperm` is proved -/
+theorem eperm_methods_are_source : Generated.roEpermMethods =
+    ["Chmod", "Chown", "Chtimes", "Create", "Mkdir", "MkdirAll", "Remove", "RemoveAll", "Rename"] := by decide
+
 end AferoVerif.C07
